@@ -122,14 +122,10 @@ impl<'a> TryFrom<ChannelSpec<'a>> for (isize, isize) {
 
     fn try_from(value: ChannelSpec) -> Result<Self, Self::Error> {
         if value.dimension() == 2 {
-            let i1: isize = value
-                .into_iter()
-                .next()
-                .unwrap_or(Err(ErrorCode::ExpressionError))?;
-            let i2: isize = value
-                .into_iter()
-                .next()
-                .unwrap_or(Err(ErrorCode::ExpressionError))?;
+            // One iterator for all dimensions
+            let mut dims = value.into_iter();
+            let i1: isize = dims.next().unwrap_or(Err(ErrorCode::ExpressionError))?;
+            let i2: isize = dims.next().unwrap_or(Err(ErrorCode::ExpressionError))?;
             Ok((i1, i2))
         } else {
             Err(Error::new(ErrorCode::ExpressionError).extended(b"Unexpected channel dimension"))
@@ -156,18 +152,11 @@ impl<'a> TryFrom<ChannelSpec<'a>> for (isize, isize, isize) {
 
     fn try_from(value: ChannelSpec) -> Result<Self, Self::Error> {
         if value.dimension() == 3 {
-            let i1: isize = value
-                .into_iter()
-                .next()
-                .unwrap_or(Err(ErrorCode::ExpressionError))?;
-            let i2: isize = value
-                .into_iter()
-                .next()
-                .unwrap_or(Err(ErrorCode::ExpressionError))?;
-            let i3: isize = value
-                .into_iter()
-                .next()
-                .unwrap_or(Err(ErrorCode::ExpressionError))?;
+            // One iterator for all dimensions
+            let mut dims = value.into_iter();
+            let i1: isize = dims.next().unwrap_or(Err(ErrorCode::ExpressionError))?;
+            let i2: isize = dims.next().unwrap_or(Err(ErrorCode::ExpressionError))?;
+            let i3: isize = dims.next().unwrap_or(Err(ErrorCode::ExpressionError))?;
             Ok((i1, i2, i3))
         } else {
             Err(Error::new(ErrorCode::ExpressionError).extended(b"Unexpected channel dimension"))
